@@ -35,14 +35,14 @@ PROPS = {
     "C01": dict(
         title="Field arithmetic is exact for every element representation",
         verus=[("w64_prim", None, "quick"), ("gf255_m64_lin", None, "quick"), ("gf255_m64_shift", None, "quick"),
-               ("gf255_m64_mul", 300, "quick", ARITH6)],
+               ("gf255_m64_mul", 120, "quick", ARITH6, 300), ("gf255_m64_ops", None, "quick")],
         kani=_gf255_k(["k_add", "k_sub", "k_neg", "k_half"]),
         cases=_f(["add", "sub", "neg", "half", "mul", "mul2", "mul4", "mul8", "mul16", "mul32", "mulk", "mul_small", "smallmul", "mul_b127",
                   "square", "xsquare", "bits"]),
-        level_text="GF255<MQ> (64-bit limbs; instantiated as GF25519, GF255e, GF255s): add, sub, neg, half, mul2..mul32 and the full 4x4-limb multiplication with its two-step pseudo-Mersenne reduction are proved by Verus against fe(result) == op(fe(args)) mod 2^255-MQ for every limb pattern and every admissible MQ; add/sub/neg/half additionally by Kani on the full 2^512 input domain. Other field types, squaring and the other backends: executable-postcondition stand-in only.",
+        level_text="GF255<MQ> (64-bit limbs; instantiated as GF25519, GF255e, GF255s): add, sub, neg, half, mul2..mul32, the full 4x4-limb multiplication and the dedicated squaring with their two-step pseudo-Mersenne reduction, repeated squaring (loop invariant, any n) and every +,-,* operator impl are proved by Verus against fe(result) == op(fe(args)) mod 2^255-MQ for every limb pattern and every admissible MQ; add/sub/neg/half additionally by Kani on the full 2^512 input domain. Other field types, squaring and the other backends: executable-postcondition stand-in only.",
         level_note="Trusted: Verus+Z3, Kani/CBMC, the x86 add-with-carry intrinsics (assumed to behave as the portable arms that are proved), extraction transformations listed in evidence. Not reached by any contract: ModInt256, GF448, GFsecp256k1, gfgen, binary fields, 32-bit/51-bit/clmul backends.",
         not_reached=["ModInt256 (Montgomery) arithmetic", "GF448", "GFsecp256k1", "define_gfgen! (ed448 scalar)", "GFb127/GFb254",
-                     "GF255 set_square/set_xsquare/set_mul_small (stand-in only)", "gf255_m51, w32 backend, gfb254_x86clmul/arm64pmull"],
+                     "GF255 set_mul_small, set_lin, set_lindiv31abs (stand-in only)", "gf255_m51, w32 backend, gfb254_x86clmul/arm64pmull"],
     ),
     "C03": dict(
         title="Point addition, doubling and negation implement the complete group law",
